@@ -49,13 +49,13 @@ THEOREM_CLASSES = {
     "C11_pool_safe": "main", "C11_pool_total": "main",
     "C11_heap_safe": "main", "C11_heap_no_adjacent_free": "main", "C11_heap_release_all_restores": "main",
     "C11_heap_refinement": "main", "C11_heap_mem_safe": "corollary",
-    "C11_heap_mem_invalid_free_reported_refuted": "refutation", "C11_heap_mem_invalid_free_reported_partial": "main",
+    "C11_heap_mem_invalid_free_reported_partial": "main",
     "C11_heap_realloc_preserves": "main", "C11_heap_alloc0_zeroes": "definitional", "C11_heap_realloc0_zeroes": "definitional",
     "C11_iface_alloc0": "definitional", "C11_iface_xalloc": "definitional", "C11_iface_xrealloc": "definitional",
     "C11_iface_realloc0": "definitional", "C11_iface_spanalloc": "main", "C11_iface_spanrealloc": "definitional",
     "C11_iface_new": "definitional",
-    "C11_arena_span_in_refuted": "refutation", "C11_arena_span_in_partial": "main",
-    "C11_aligned_arith": "main", "C11_aligned_alloc_spec": "main", "C11_aligned_fits_refuted": "refutation",
+    "C11_arena_span_in": "main",
+    "C11_aligned_arith": "main", "C11_aligned_alloc_spec": "main", "C11_aligned_fits": "main", "C11_aligned_fits_init": "corollary",
 }
 ALLOWED_AXIOMS = []
 TRUSTED_BASE = [
@@ -321,14 +321,29 @@ class Shadow:
             h, n = int(toks[1]), int(toks[2])
             if op == "xrealloc" and ptr is None and n > 0:
                 self.bad("x-returned-nil", "xrealloc returned nil instead of raising 'out of memory'")
-            if op.startswith("span"):
-                n = (n * 4) % M64
             old = self.live.get(h)
-            if op.startswith("span") and old is not None and old["size"] // 4 == 0 and n > 0:
+            overflow = False
+            if op.startswith("span"):
+                cnt = n
+                n = cnt * 4          # exact: the bytes the new span would claim
+                got = [x for x in rw if x.startswith("n") and x[1:].isdigit()]
+                if n >= M64:
+                    # not representable: the span has to come back unchanged (or empty when it was empty)
+                    oldcnt = old["size"] // 4 if old is not None else 0
+                    if got and int(got[0][1:]) == cnt and cnt != oldcnt:
+                        self.bad("span-count", "%s(%d): count * #T overflows usize, yet a span of %d elements came back" % (op, cnt, cnt))
+                    else:
+                        overflow = True     # correctly refused: nothing changes
+            if overflow:
+                pass
+            elif op.startswith("span") and old is not None and old["size"] // 4 == 0 and n > 0:
                 # Allocator:spanrealloc on an empty span is a fresh spanalloc: the (zero-size) old block is dropped
                 self.live.pop(h, None)
                 old = None
-            if n == 0:
+            if overflow:
+                if expect == "nonnil":
+                    self.bad("lost-memory", "%s(%d) fails" % (op, n))
+            elif n == 0:
                 self.live.pop(h, None)
                 if ptr is not None and old is not None:
                     self.bad("realloc-zero", "realloc to 0 returned a pointer")
@@ -504,11 +519,14 @@ def _pick_size(kind, sh, rng, P, for_realloc=None):
     """Sizes: 0, 1, align+-1, chunk/bin boundaries, capacity+-1, 2^63, just below the wrap-around zone."""
     r = rng.random()
     if kind == "aligned":
-        # like the arena it wraps; stay below the request wrap-around of aligned.nelua (known finding)
+        # like the arena it wraps, plus the zone where size + #pointer + ALIGN - 1 would wrap (repair 532034f)
         v = _pick_size("arena", sh, rng, P)
-        if rng.random() < .3:
+        q = rng.random()
+        if q < .3:
             v = max(1, sh.cap - getattr(sh, "curr", 0) - 8 - sh.align + rng.choice([0, 1, 2, -1, 7, 8, sh.align, -sh.align]))
-        return min(v, M64 - 8 - sh.align)
+        elif q < .36:
+            v = M64 - 8 - sh.align + rng.choice([-1, 0, 1, 2, 7, 8, sh.align - 1, sh.align, sh.align + 7])
+        return min(max(v, 0), M64 - 1)
     if kind in ("arena", "stack"):
         A, S = sh.align, sh.cap
         hdr = P["STACK_HEADER_SIZE"] if kind == "stack" else 0
@@ -632,7 +650,14 @@ def run_history(R, rng, nops, style):
             n = pick_size(kind, sh, rng, P)
             opn = rng.choice(["alloc", "alloc", "alloc", "alloc0", "alloc0", "spanalloc", "spanalloc0", "realloc", "realloc0"]) if kind != "pool" else rng.choice(["alloc", "alloc", "alloc0", "realloc"])
             if opn.startswith("span"):
-                n = max(1, min(n, (1 << 61)) // 4) if n < (1 << 40) else n // 4
+                if n < (1 << 40):
+                    n = max(1, n // 4)
+                elif rng.random() < .5:
+                    n = n // 4
+                else:
+                    # the zone where count * #T would wrap (repair 942989e): must come back as the empty span
+                    n = rng.choice([n, (M64 - 1) // 4 + 1, (M64 - 1) // 4 + 2, (1 << 62) + 1, (1 << 62) + rng.randrange(1, 64), (1 << 63) + 2,
+                                    M64 - 1, (M64 - 1) // 4, M64 // 4 + max(1, (sh.cap - getattr(sh, "curr", 0)) // 4)])
             R.do("%s %d %d" % (opn, h, n))
             if h in sh.live:
                 after_new(h)
@@ -653,6 +678,9 @@ def run_history(R, rng, nops, style):
             if sp:
                 opn = "span" + opn
                 n = n // 4
+                if rng.random() < .12:
+                    # count * #T would wrap: the span must come back unchanged
+                    n = rng.choice([(M64 - 1) // 4 + 1, (1 << 62) + 1, (1 << 62) + max(1, b["size"] // 4), (1 << 62) + rng.randrange(1, 64), M64 - 1])
                 if n == 0 and kind == "stack" and h != order[-1]:
                     n = 1
             R.do("%s %d %d" % (opn, h, n))
@@ -717,10 +745,10 @@ def run_history(R, rng, nops, style):
 
 
 # --------------------------------------------------------------------------------------------
-# histories of the seven repaired defects (replayed every run, must pass) and scripted precondition-violating histories
+# histories of the ten repaired defects (replayed every run, must pass) and scripted precondition-violating histories
 # --------------------------------------------------------------------------------------------
 BIG = M64 - 8
-# each was a known finding until the fix commits 484ce8f / 961d315 / 942c78c / b8d094a; the text says what used to fail
+# each was a known finding until the fix commits 484ce8f / 961d315 / 942c78c / b8d094a / 942989e / 532034f / 9ef0717; the text says what used to fail
 REGRESSIONS = [
     # key, instance, ops, what used to fail
     ("arena(64,8): alloc 16; alloc 18446744073709551608; alloc 8", "a0",
@@ -744,18 +772,26 @@ REGRESSIONS = [
     ("heap(65536): alloc 1000; realloc 100; dealloc; alloc 65000", "h1",
      ["alloc 0 1000", "realloc 0 100", "dealloc 0", "alloc 1 65000 !"],
      "heap realloc-shrink does not coalesce the split remainder with a free successor: memory is lost to fragmentation"),
+    # repaired by 942989e / 532034f / 9ef0717
+    ("arena(64,8): spanalloc uint32 x 4611686018427387905", "a0", ["spanalloc 0 4611686018427387905", "alloc 1 8"],
+     "Allocator:spanalloc computed size * #T without an overflow test: spanalloc(@uint32, 2^62+1) asked the allocator for 4 bytes and returned a span of 2^62+1 elements"),
+    ("aligned(arena(1024,8),64): alloc 18446744073709551608", "g0", ["alloc 0 18446744073709551608", "alloc 1 8"],
+     "AlignedAllocator:alloc computed size + #pointer + ALIGN - 1 without an overflow test: alloc(2^64-8) asked the wrapped allocator for 63 bytes and returned a non-nil pointer"),
+    # the last op must now be REPORTED (the process aborts there, the model panics there): 5th field True
+    ("heap(1024): alloc 100; alloc 50; deallocall; alloc 400; rawdealloc 184; alloc 8", "h0",
+     ["alloc 0 100", "alloc 1 50", "deallocall", "alloc 2 400", "rawdealloc 184"],
+     "HeapAllocatorT:deallocall left the NODE_COOKIE marks of the old chunks in the buffer: the stale pointer of the previous generation passed the cookie test, dealloc linked garbage into a bin and the next alloc overlapped a live block",
+     True),
 ]
 
 # defects of the unchanged tree that are still open: replayed every run, reported under their exact key
 # (listed in known_findings/C11.json; proposed repair in harness/C11/proposed_repairs/)
 KNOWN_DEFECTS = [
-    ("heap(1024): alloc 100; alloc 50; deallocall; alloc 400; rawdealloc 184; alloc 8", "h0",
-     ["alloc 0 100", "alloc 1 50", "deallocall", "alloc 2 400", "rawdealloc 184", "alloc 3 8"],
-     "HeapAllocatorT:deallocall leaves the NODE_COOKIE marks of the old chunks in the buffer: the stale pointer of the previous generation passes the cookie test, dealloc links garbage into a bin and the next alloc overlaps a live block"),
-    ("aligned(arena(1024,8),64): alloc 18446744073709551608", "g0", ["alloc 0 18446744073709551608"],
-     "AlignedAllocator:alloc computes size + #pointer + ALIGN - 1 without an overflow test: alloc(2^64-8) asks the wrapped allocator for 63 bytes and returns a non-nil pointer"),
-    ("arena(64,8): spanalloc uint32 x 4611686018427387905", "a0", ["spanalloc 0 4611686018427387905"],
-     "Allocator:spanalloc computes size * #T without an overflow test: spanalloc(@uint32, 2^62+1) asks the allocator for 4 bytes and returns a span of 2^62+1 elements"),
+    ("heap(200): alloc 8; dealloc #0; rawdealloc 200; alloc 190", "h3",
+     ["alloc 0 8", "dealloc 0", "rawdealloc 200", "alloc 1 190"],
+     "Heap:dealloc accepts the one-past-the-end pointer of the buffer: the end sentinel node carries the used mark (next=1, prev=NODE_COOKIE), so "
+     "get_ptr_node(buffer+SIZE) succeeds whenever the sentinel is 16-aligned; dealloc merges the sentinel into the last free chunk (writing 8 bytes "
+     "beyond the buffer) and the next alloc hands out a block that ends beyond the buffer"),
 ]
 
 # scripted precondition-violating histories: (name, instance, ops, must_panic_at_last_op)
@@ -849,8 +885,30 @@ def correspond(ctx):
 
     # ---- 1. the histories of the repaired defects: replayed on the implementation, judged by the oracle;
     #         they must pass now, a failure is a plain VIOLATION (the entries in known_findings are "fixed:")
-    for key, inst, ops, what in REGRESSIONS:
+    for reg in REGRESSIONS:
+        key, inst, ops, what = reg[:4]
+        must_report = len(reg) > 4 and reg[4]
         R, infol, died, msg = run_scripted(exe, inst, ops, P)
+        if must_report:
+            # the invalid last call has to be reported by a failed check, by the implementation and by the model
+            last = len(ops)            # index in alllines (line 0 is the reset)
+            rc, mout, merr = run_model(driver, infol, R.alllines)
+            mp = next((i for i, l in enumerate(mout) if l.startswith("panic")), None)
+            if R.problems or died != last:
+                why = "; ".join("%s: %s" % (w, d) for w, d, _ in R.problems[:3]) or \
+                      ("the invalid call was not reported: implementation %s" % ("continued" if died is None else "aborted earlier at '%s': %s" % (R.alllines[died], msg)))
+                ctx.violation("regression:" + key, "oracle", "repaired defect is back: %s -- %s" % (what, why),
+                              detail={"instance": inst, "info": R.impl.info[inst], "ops": ops, "transcript": [list(x) for x in R.lines],
+                                      "replay": replay_cmd(R.alllines)})
+            if mp != died:
+                stats["model_mismatches"] += 1
+                ctx.violation("model-mismatch:regression:" + key, "correspondence",
+                              "model and implementation disagree on the history of a repaired defect: implementation %s, model %s" %
+                              ("aborts at op %s" % died if died is not None else "continues", "panics at op %s" % mp if mp is not None else "continues"),
+                              detail={"ops": ops}, failing_input=False)
+            stats["ops"] += len(R.alllines)
+            stats["panics_expected"] += 1
+            continue
         lines = [l for l, _ in R.lines]
         rc, mout, merr = run_model(driver, infol, lines if died is None else R.alllines)
         mm = None
